@@ -57,7 +57,7 @@ def strategy_(draw, tier):
         dirs = gen.orig_dirs(tw, base)
         orig = draw(st.sampled_from(dirs)) + "/" + name
         dc = draw(st.sampled_from(DELTAS))
-        kind = draw(st.sampled_from(["file", "empty", "tree", "link"]))
+        kind = draw(st.sampled_from(["file", "empty", "tree", "link", "fifo"]))
         payload = draw(st.integers(0, 9)) != 0
         secs = {"-1": thr - 1, "0": thr, "+1": thr + 1,
                 "rand_old": thr - draw(st.integers(2, 10 ** 7)),
